@@ -144,3 +144,5 @@ def check(ctx, rep):
             raise AnalysisError(f'no summary for {fq}')
         ob(rep, 'EFF-mutates-argument', fq, 'arguments are not written', not s.mutates, 'pure query',
            f'writes parameter index(es) {sorted(s.mutates)}', program.func(fq).loc(), 'C16d')
+    from .common import memo_rule
+    memo_rule(ctx, rep, 'C16e', ('peptacular.sequence.sequence_funcs', 'peptacular.proforma.proforma_parser'))
